@@ -449,7 +449,7 @@ theorem loadPickleAutoref_keptV (f : PickleFile) (levels : Bool) (m : Mgr) (hI :
     (hc : m.ctx = false) : KeptV m (loadPickleAutoref f levels m).2 :=
   (loadPickleAutoref_leaves f levels m hI hc).1
 
-/-! ### the JSON loader (`load_order=False`, reordering not enabled): any content -/
+/-! ### the JSON loader, reordering not enabled: the operations it calls, any arguments -/
 
 /-- the operation keeps the manager whatever it is given and whatever it returns, dynamic
 reordering not enabled -/
@@ -563,515 +563,9 @@ theorem applyNot_hnq : ∀ row, findRow "not" Gen.applyTable = some row →
 theorem TotK.applyNot (u : Int) : TotK (apply "not" u none none) :=
   fun m hI hoff => apply_total m hI hoff "not" u none none applyNot_hnq
 
-/-! ### every outcome, with the ledger: `Safe`
-
-`Safe e l lerr x post`: started between two calls with the counts exact for the ledger
-`e + l` (`l` lists the references the loader's live `Function`s and its shelf hold), `x` keeps
-the manager (`Kept`) and ends — when it returns `a` — in such a state for a ledger `l'` with
-`post a l'`, and — when it raises — in such a state for the ledger `e + lerr`. -/
-
-def Safe {α : Type} (e : Nat → Nat) (l lerr : List Nat) (x : M α) (post : α → List Nat → Prop) : Prop :=
-  ∀ m, GoodState m (extAdd e l) →
-    Kept m (x m).2 ∧
-    match (x m).1 with
-    | .ok a => ∃ l', post a l' ∧ GoodState (x m).2 (extAdd e l')
-    | .error _ => GoodState (x m).2 (extAdd e lerr)
-
-theorem GoodState.permL {e : Nat → Nat} {l l' : List Nat} {m : Mgr} (h : GoodState m (extAdd e l))
-    (hp : l.Perm l') : GoodState m (extAdd e l') := by rw [← extAdd_perm e hp]; exact h
-
-theorem Safe.mono {α : Type} {e : Nat → Nat} {l lerr : List Nat} {x : M α} {P Q : α → List Nat → Prop}
-    (h : Safe e l lerr x P) (hpq : ∀ a l', P a l' → Q a l') : Safe e l lerr x Q := by
-  intro m hg
-  obtain ⟨k, ho⟩ := h m hg
-  refine ⟨k, ?_⟩
-  cases hr : (x m).1 with
-  | ok a =>
-    rw [hr] at ho
-    obtain ⟨l', p, g⟩ := ho
-    exact ⟨l', hpq a l' p, g⟩
-  | error er => rw [hr] at ho; exact ho
-
-theorem Safe.perm {α : Type} {e : Nat → Nat} {l l2 lerr lerr2 : List Nat} {x : M α}
-    {P : α → List Nat → Prop} (h : Safe e l lerr x P) (h1 : l2.Perm l) (h2 : lerr.Perm lerr2) :
-    Safe e l2 lerr2 x P := by
-  intro m hg
-  obtain ⟨k, ho⟩ := h m (hg.permL h1)
-  refine ⟨k, ?_⟩
-  cases hr : (x m).1 with
-  | ok a => rw [hr] at ho; exact ho
-  | error er => rw [hr] at ho; exact ho.permL h2
-
-theorem Safe.bind {α β : Type} {e : Nat → Nat} {l lerr : List Nat} {x : M α} {f : α → M β}
-    {P : α → List Nat → Prop} {Q : β → List Nat → Prop}
-    (hx : Safe e l lerr x P) (hf : ∀ a l1, P a l1 → Safe e l1 lerr (f a) Q) :
-    Safe e l lerr (x >>= f) Q := by
-  intro m hg
-  obtain ⟨k1, ho⟩ := hx m hg
-  cases h1 : x m with
-  | mk r m1 =>
-    rw [h1] at k1 ho
-    cases r with
-    | error er =>
-      rw [M.bind_eq_err h1]
-      exact ⟨k1, ho⟩
-    | ok a =>
-      obtain ⟨l1, p, g1⟩ := ho
-      obtain ⟨k2, ho2⟩ := hf a l1 p m1 g1
-      rw [M.bind_eq_ok h1]
-      exact ⟨k1.trans k2, ho2⟩
-
-theorem Safe.pure {α : Type} {e : Nat → Nat} {l lerr : List Nat} (a : α) {P : α → List Nat → Prop}
-    (h : P a l) : Safe e l lerr (pure a : M α) P :=
-  fun _ hg => ⟨Kept.refl hg.inv, l, h, hg⟩
-
-theorem Safe.throw {α : Type} {e : Nat → Nat} {l : List Nat} (er : Err) {P : α → List Nat → Prop} :
-    Safe e l l (M.throw er : M α) P :=
-  fun _ hg => ⟨Kept.refl hg.inv, hg⟩
-
-theorem Safe.assert {e : Nat → Nat} {l : List Nat} (b : Bool) :
-    Safe e l l (M.assert b) (fun _ l' => l' = l) := by
-  unfold M.assert; split
-  · exact Safe.pure () rfl
-  · exact Safe.throw _
-
-theorem Safe.ofOption {α : Type} {e : Nat → Nat} {l : List Nat} (er : Err) (o : Option α) :
-    Safe e l l (M.ofOption er o) (fun _ l' => l' = l) := by
-  cases o with
-  | none => exact Safe.throw _
-  | some a => exact Safe.pure a rfl
-
-/-- an operation that keeps the manager and the counts for the same ledger, whatever it returns -/
-theorem Safe.ofKeeps {α : Type} {e : Nat → Nat} {l : List Nat} {x : M α}
-    (hk : ∀ m, Inv m → m.lastLen = none → Kept m (x m).2)
-    (hr : ∀ m ext, Lite ext m → RefExact (x m).2 ext) :
-    Safe e l l x (fun _ l' => l' = l) := by
-  intro m hg
-  have k := hk m hg.inv hg.off
-  have g : GoodState (x m).2 (extAdd e l) := hg.of_kept k (hr m _ hg.lite)
-  refine ⟨k, ?_⟩
-  cases (x m).1 with
-  | ok a => exact ⟨l, rfl, g⟩
-  | error er => exact g
-
-theorem Safe.bddVar {e : Nat → Nat} {l : List Nat} (name : String) :
-    Safe e l l (var name) (fun _ l' => l' = l) :=
-  Safe.ofKeeps (TotK.bddVar name) (fun m ext h => (var_lite ext name m h).1.exact)
-
-theorem Safe.bddIte {e : Nat → Nat} {l : List Nat} (g u v : Int) :
-    Safe e l l (ite g u v) (fun _ l' => l' = l) :=
-  Safe.ofKeeps (TotK.bddIte g u v) (fun m ext h => (ite_lite ext g u v m h).1.exact)
-
-theorem Safe.applyNot {e : Nat → Nat} {l : List Nat} (u : Int) :
-    Safe e l l (apply "not" u none none) (fun _ l' => l' = l) :=
-  Safe.ofKeeps (TotK.applyNot u) (fun m ext h => (apply_lite ext "not" u none none m h).exact)
-
-theorem Safe.containsCheck {e : Nat → Nat} {l : List Nat} (u : Int) :
-    Safe e l l (containsCheck u) (fun _ l' => l' = l) := by
-  unfold DD.containsCheck
-  refine Safe.bind (P := fun _ l' => l' = l) (fun m hg => ⟨Kept.refl hg.inv, l, rfl, hg⟩) fun a l1 h1 => ?_
-  subst h1
-  split
-  · exact Safe.throw _
-  · exact Safe.pure _ rfl
-
-/-- `Function(u, bdd)` on ANY integer: refused (`ValueError`) with nothing changed, or one more
-reference -/
-theorem Safe.wrap {e : Nat → Nat} {l : List Nat} (u : Int) :
-    Safe e l l (dmpWrap u) (fun _ l' => l' = u.natAbs :: l) := by
-  intro m hg
-  by_cases hu : m.tbl.Mem u
-  · obtain ⟨r', hw, g⟩ := dmp_wrap_spec m _ hg u hu
-    rw [extInc_extAdd] at g
-    have hk : Kept m (dmpWrap u m).2 := TotK.wrap u m hg.inv hg.off
-    rw [hw] at hk ⊢
-    exact ⟨hk, _, rfl, g⟩
-  · have hm : m.mem u = false := (Tbl.mem_false_iff _ _).mpr hu
-    have : dmpWrap u m = (.error .value, m) := by unfold dmpWrap; simp [hm]
-    rw [this]
-    exact ⟨Kept.refl hg.inv, hg⟩
-
-/-- `bdd.incref(u)` on ANY integer -/
-theorem Safe.incref {e : Nat → Nat} {l : List Nat} (u : Int) :
-    Safe e l l (incref u) (fun _ l' => l' = u.natAbs :: l) := by
-  intro m hg
-  have hk := incref_kept m hg.inv u
-  by_cases hu : m.tbl.Mem u
-  · obtain ⟨c, _, he, _⟩ := incref_spec m _ u hg.exact hu
-    have g := (incref_good m _ hg u).1
-    have hm : m.mem u = true := (Mgr.mem_iff m u).mpr hu
-    simp only [hm, if_true] at g
-    rw [extInc_extAdd] at g
-    rw [he] at hk g ⊢
-    exact ⟨hk, _, rfl, g⟩
-  · have g := (incref_good m _ hg u).1
-    have hm : m.mem u = false := (Tbl.mem_false_iff _ _).mpr hu
-    simp only [hm, Bool.false_eq_true, if_false] at g
-    have hn := incref_not_mem m u (ref_none_of_not_mem hg.exact hu)
-    rw [hn] at hk g ⊢
-    exact ⟨hk, g⟩
-
-/-- the temporaries die whether the block returned or raised -/
-theorem Safe.withTemps {α : Type} {e : Nat → Nat} {l lerr : List Nat} (a : Int) {x : M α}
-    {P Q : α → List Nat → Prop} (hx : Safe e l (a.natAbs :: lerr) x P)
-    (hq : ∀ b l', P b l' → ∃ L, l'.Perm (a.natAbs :: L) ∧ Q b L) :
-    Safe e l lerr (withTemps [a] x) Q := by
-  intro m hg
-  obtain ⟨k1, ho⟩ := hx m hg
-  unfold DD.withTemps
-  cases h1 : x m with
-  | mk r m1 =>
-    rw [h1] at k1 ho
-    have kd : Kept m1 (dropList [a] m1) := dropList_kept [a] m1 k1.inv
-    cases r with
-    | error er =>
-      obtain ⟨r', hd, g⟩ := dmp_drop_spec m1 _ ho a (extAdd_pos _ _ _)
-      rw [extDec_extAdd] at g
-      refine ⟨k1.trans kd, ?_⟩
-      show GoodState (dropList [a] m1) _
-      simp only [dropList]; rw [hd]; exact g
-    | ok b =>
-      obtain ⟨l', p, g1⟩ := ho
-      obtain ⟨L, hp, q⟩ := hq b l' p
-      obtain ⟨r', hd, g⟩ := dmp_drop_spec m1 _ (g1.permL hp) a (extAdd_pos _ _ _)
-      rw [extDec_extAdd] at g
-      refine ⟨k1.trans kd, L, q, ?_⟩
-      show GoodState (dropList [a] m1) _
-      simp only [dropList]; rw [hd]; exact g
-
-
-/-- `_node_from_int` on ANY shelf and ANY id: one reference on the returned node, or an
-exception with every temporary released -/
-theorem Safe.nodeFromInt {e : Nat → Nat} {l : List Nat} (cache : List (Nat × Int)) (uid : Int) :
-    Safe e l l (nodeFromInt cache uid) (fun r l' => l' = r.natAbs :: l) := by
-  unfold DD.nodeFromInt
-  by_cases hm1 : uid = -1
-  · simp only [hm1, if_true]
-    exact Safe.bind (Safe.wrap _) fun _ l1 h1 => by rw [h1]; exact Safe.pure _ rfl
-  by_cases h1 : uid = 1
-  · simp only [hm1, h1, if_false, if_true]
-    exact Safe.bind (Safe.wrap _) fun _ l1 h1 => by rw [h1]; exact Safe.pure _ rfl
-  simp only [hm1, h1, if_false]
-  refine Safe.bind (Safe.ofOption _ _) fun k l1 hl1 => ?_
-  rw [hl1]
-  refine Safe.bind (Safe.wrap k) fun _ l1 hl1 => ?_
-  rw [hl1]
-  split
-  · refine Safe.withTemps (lerr := l) k
-      (P := fun r l' => l' = r.natAbs :: k.natAbs :: l) ?_ ?_
-    · refine Safe.bind (Safe.applyNot k) fun r l1 hl1 => ?_
-      rw [hl1]
-      refine Safe.bind (Safe.wrap r) fun _ l1 hl1 => ?_
-      rw [hl1]
-      exact Safe.pure _ rfl
-    · intro r l' hl'
-      rw [hl']
-      exact ⟨r.natAbs :: l, List.Perm.swap _ _ _, rfl⟩
-  · exact Safe.pure k rfl
-
 /-- the shelf gets one more entry, held once more -/
 def PostT (cache : List (Nat × Int)) (id : Nat) (T : List Nat) (c' : List (Nat × Int)) (l' : List Nat) : Prop :=
   ∃ u : Int, c' = cache ++ [(id, u)] ∧ l' = u.natAbs :: T
-
-/-- `_make_node` (`load_order=False`) on ANY line and ANY shelf: the line is skipped, or its node
-is put on the shelf with one reference, or an exception leaves the counts as they were — every
-temporary `Function` has been released -/
-theorem Safe.makeNode {e : Nat → Nat} {l : List Nat} (vat : List (Nat × String)) (ln : JLine)
-    (cache : List (Nat × Int)) :
-    Safe e l l (makeNode false vat ln cache)
-      (fun c' l' => (c' = cache ∧ l' = l) ∨ (cache.lookup ln.id = none ∧ PostT cache ln.id l c' l')) := by
-  unfold DD.makeNode
-  refine Safe.bind (Safe.assert _) fun _ l1 hl1 => ?_
-  rw [hl1]
-  by_cases hin : (cache.lookup ln.id).isSome = true
-  · simp only [hin, if_true]
-    exact Safe.pure _ (Or.inl ⟨rfl, rfl⟩)
-  simp only [hin, Bool.false_eq_true, if_false]
-  have hnew : cache.lookup ln.id = none := by
-    cases hh : cache.lookup ln.id with
-    | none => rfl
-    | some x => simp [hh] at hin
-  refine Safe.mono (P := PostT cache ln.id l) ?_ (fun c' l' h => Or.inr ⟨hnew, h⟩)
-  refine Safe.bind (Safe.nodeFromInt cache ln.lo) fun low l1 hl1 => ?_
-  rw [hl1]
-  refine Safe.withTemps (lerr := l) low (P := PostT cache ln.id (low.natAbs :: l)) ?_
-    (fun c' l' ⟨u, hc, hl'⟩ => ⟨u.natAbs :: l, by rw [hl']; exact List.Perm.swap _ _ _, u, hc, rfl⟩)
-  refine Safe.bind (Safe.nodeFromInt cache ln.hi) fun high l1 hl1 => ?_
-  rw [hl1]
-  refine Safe.withTemps (lerr := low.natAbs :: l) high
-    (P := PostT cache ln.id (high.natAbs :: low.natAbs :: l)) ?_
-    (fun c' l' ⟨u, hc, hl'⟩ => ⟨u.natAbs :: low.natAbs :: l, by rw [hl']; exact List.Perm.swap _ _ _, u, hc, rfl⟩)
-  refine Safe.bind (Safe.ofOption _ _) fun name l1 hl1 => ?_
-  rw [hl1]
-  refine Safe.bind (Safe.bddVar name) fun g l1 hl1 => ?_
-  rw [hl1]
-  refine Safe.bind (Safe.wrap g) fun _ l1 hl1 => ?_
-  rw [hl1]
-  refine Safe.withTemps (lerr := high.natAbs :: low.natAbs :: l) g
-    (P := PostT cache ln.id (g.natAbs :: high.natAbs :: low.natAbs :: l)) ?_
-    (fun c' l' ⟨u, hc, hl'⟩ => ⟨u.natAbs :: high.natAbs :: low.natAbs :: l,
-      by rw [hl']; exact List.Perm.swap _ _ _, u, hc, rfl⟩)
-  refine Safe.bind (Safe.containsCheck g) fun _ l1 hl1 => ?_
-  rw [hl1]
-  refine Safe.bind (Safe.containsCheck high) fun _ l1 hl1 => ?_
-  rw [hl1]
-  refine Safe.bind (Safe.containsCheck low) fun _ l1 hl1 => ?_
-  rw [hl1]
-  refine Safe.bind (Safe.bddIte g high low) fun u l1 hl1 => ?_
-  rw [hl1]
-  refine Safe.bind (Safe.wrap u) fun _ l1 hl1 => ?_
-  rw [hl1]
-  refine Safe.withTemps (lerr := g.natAbs :: high.natAbs :: low.natAbs :: l) u
-    (P := fun c' l' => c' = cache ++ [(ln.id, u)] ∧
-      l' = u.natAbs :: u.natAbs :: g.natAbs :: high.natAbs :: low.natAbs :: l) ?_
-    (fun c' l' ⟨hc, hl'⟩ => ⟨u.natAbs :: g.natAbs :: high.natAbs :: low.natAbs :: l,
-      by rw [hl'], u, hc, rfl⟩)
-  refine Safe.bind (Safe.assert _) fun _ l1 hl1 => ?_
-  rw [hl1]
-  refine Safe.bind (Safe.incref u) fun _ l1 hl1 => ?_
-  rw [hl1]
-  exact Safe.pure _ ⟨rfl, rfl⟩
-
-/-- the references the shelf holds -/
-def shelfRefs (c : List (Nat × Int)) : List Nat := c.map (·.2.natAbs)
-
-/-- the loop over the node lines (`load_order=False`), ANY lines: however it is left, the counts
-are exact for the caller's ledger plus one reference per shelf entry -/
-theorem makeNodesE_any (e : Nat → Nat) (vat : List (Nat × String)) :
-    ∀ (ls : List JLine) (cache : List (Nat × Int)) (m : Mgr), (cache.map (·.1)).Nodup →
-      (∀ p ∈ cache, p.1 ≠ 1) → (∀ ln ∈ ls, ln.id ≠ 1) →
-      GoodState m (extAdd e (shelfRefs cache)) →
-      Kept m (makeNodesE false vat ls cache m).2.2 ∧
-      ((makeNodesE false vat ls cache m).2.1.map (·.1)).Nodup ∧
-      (∀ p ∈ (makeNodesE false vat ls cache m).2.1, p.1 ≠ 1) ∧
-      GoodState (makeNodesE false vat ls cache m).2.2
-        (extAdd e (shelfRefs (makeNodesE false vat ls cache m).2.1)) := by
-  intro ls
-  induction ls with
-  | nil => intro cache m hn h1 _ hg; exact ⟨Kept.refl hg.inv, hn, h1, hg⟩
-  | cons ln rest ih =>
-    intro cache m hn h1 hl1 hg
-    obtain ⟨k1, ho⟩ := Safe.makeNode (e := e) (l := shelfRefs cache) vat ln cache m hg
-    rw [makeNodesE]
-    cases hmk : makeNode false vat ln cache m with
-    | mk r m1 =>
-      rw [hmk] at k1 ho
-      cases r with
-      | error er => exact ⟨k1, hn, h1, ho⟩
-      | ok c1 =>
-        dsimp only
-        obtain ⟨l', hp, g1⟩ := ho
-        have hrest : ∀ ln' ∈ rest, ln'.id ≠ 1 := fun x hx => hl1 x (List.mem_cons_of_mem _ hx)
-        rcases hp with ⟨rfl, rfl⟩ | ⟨hnew, u, rfl, rfl⟩
-        · obtain ⟨k2, n2, i2, g2⟩ := ih c1 m1 hn h1 hrest g1
-          exact ⟨k1.trans k2, n2, i2, g2⟩
-        · have hn' : ((cache ++ [(ln.id, u)]).map (·.1)).Nodup := by
-            rw [List.map_append, List.nodup_append]
-            refine ⟨hn, by simp, ?_⟩
-            intro a ha b hb hab
-            simp at hb
-            subst hb hab
-            have := (dmp_lookup_isSome_of_mem_keys cache _).mpr ha
-            rw [hnew] at this; cases this
-          have h1' : ∀ p ∈ cache ++ [(ln.id, u)], p.1 ≠ 1 := by
-            intro p hp
-            rcases List.mem_append.mp hp with h | h
-            · exact h1 p h
-            · simp at h; subst h; exact hl1 ln List.mem_cons_self
-          have g1' : GoodState m1 (extAdd e (shelfRefs (cache ++ [(ln.id, u)]))) := by
-            apply g1.permL
-            simp only [shelfRefs, List.map_append, List.map_cons, List.map_nil]
-            exact (List.perm_append_singleton _ _).symm
-          obtain ⟨k2, n2, i2, g2⟩ := ih _ m1 hn' h1' hrest g1'
-          exact ⟨k1.trans k2, n2, i2, g2⟩
-
-/-- the roots of the result on ANY ids -/
-theorem Safe.rootsFromInts {e : Nat → Nat} (cache : List (Nat × Int)) :
-    ∀ (ks : List Int) (l : List Nat),
-      Safe e l l (rootsFromInts cache ks)
-        (fun us l' => l'.Perm (us.map Int.natAbs ++ l) ∧ us.length = ks.length) := by
-  intro ks
-  induction ks with
-  | nil => intro l; unfold DD.rootsFromInts; exact Safe.pure _ ⟨List.Perm.refl _, rfl⟩
-  | cons k rest ih =>
-    intro l
-    unfold DD.rootsFromInts
-    refine Safe.bind (Safe.nodeFromInt cache k) fun u l1 hl1 => ?_
-    rw [hl1]
-    intro m hg
-    obtain ⟨k1, ho⟩ := ih (u.natAbs :: l) m hg
-    dsimp only
-    cases h1 : DD.rootsFromInts cache rest m with
-    | mk r m1 =>
-      rw [h1] at k1 ho
-      cases r with
-      | ok us =>
-        obtain ⟨l', ⟨hp, hlen⟩, g⟩ := ho
-        refine ⟨k1, l', ⟨?_, by simp [hlen]⟩, g⟩
-        refine hp.trans ?_
-        simp only [List.map_cons, List.cons_append]
-        exact List.perm_middle
-      | error er =>
-        obtain ⟨r', hd, g⟩ := dmp_drop_spec m1 _ ho u (extAdd_pos _ _ _)
-        rw [extDec_extAdd] at g
-        have kd : Kept m1 (dmpDrop u m1).2 := decref_kept m1 k1.inv u
-        refine ⟨k1.trans kd, ?_⟩
-        show GoodState (dmpDrop u m1).2 _
-        rw [hd]; exact g
-
-theorem Safe.jsonRoots {e : Nat → Nat} {l : List Nat} (f : JsonFile) (cache : List (Nat × Int)) :
-    Safe e l l (jsonRoots f cache)
-      (fun us l' => l'.Perm (us.map Int.natAbs ++ l) ∧ (f.roots.rebuild us).values = us) := by
-  unfold DD.jsonRoots
-  cases hr : f.roots with
-  | none => exact Safe.bind (P := fun _ _ => False) (Safe.throw _) fun _ _ h => h.elim
-  | list ks =>
-    refine Safe.bind (P := fun a l' => l' = l ∧ a = ks) (Safe.pure _ ⟨rfl, rfl⟩) fun a l1 hl1 => ?_
-    obtain ⟨rfl, rfl⟩ := hl1
-    exact (Safe.rootsFromInts cache _ _).mono (fun us l' h => ⟨h.1, rfl⟩)
-  | dict d =>
-    refine Safe.bind (P := fun a l' => l' = l ∧ a = d.map (·.2)) (Safe.pure _ ⟨rfl, rfl⟩) fun a l1 hl1 => ?_
-    obtain ⟨rfl, rfl⟩ := hl1
-    refine (Safe.rootsFromInts cache _ _).mono (fun us l' h => ⟨h.1, ?_⟩)
-    show ((d.map (·.1)).zip us).map (·.2) = us
-    apply List.map_snd_zip
-    have := h.2
-    simp at this ⊢
-    omega
-
-/-- a shelf entry is fetched: one more reference on its node -/
-theorem fetch_shelf (e : Nat → Nat) (cache : List (Nat × Int)) (hn : (cache.map (·.1)).Nodup)
-    (k : Nat) (u0 : Int) (hm : (k, u0) ∈ cache) (hk1 : k ≠ 1) (m : Mgr) (L : List Nat)
-    (hg : GoodState m (extAdd e L)) (hin : u0.natAbs ∈ L) :
-    ∃ r, nodeFromInt cache (k : Int) m = (.ok u0, { m with ref := r }) ∧
-      GoodState { m with ref := r } (extAdd e (u0.natAbs :: L)) := by
-  have hlk := dmp_lookup_of_mem_nodup cache hn k u0 hm
-  have hpos : 0 < extAdd e L u0.natAbs := by
-    have : 0 < L.count u0.natAbs := List.count_pos_iff.mpr hin
-    simp only [extAdd]; omega
-  have hmem : m.tbl.Mem u0 := hg.exact.mem_of_ext_pos hpos
-  obtain ⟨r, hw, g⟩ := dmp_wrap_spec m _ hg u0 hmem
-  rw [extInc_extAdd] at g
-  refine ⟨r, ?_, g⟩
-  unfold DD.nodeFromInt
-  have a1 : ¬ ((k : Int) = -1) := by omega
-  have a2 : ¬ ((k : Int) = 1) := by omega
-  have a3 : ¬ ((k : Int) < 0) := by omega
-  have a4 : ((k : Int)).natAbs = k := by simp
-  simp only [a1, a2, a3, a4, if_false]
-  have hlook : (M.ofOption Err.key (cache.lookup k) : M Int) m = (.ok u0, m) := by rw [hlk]; rfl
-  refine (M.bind_eq_ok hlook).trans ?_
-  refine (M.bind_eq_ok hw).trans ?_
-  rfl
-
-theorem dropOpt_spec (e : Nat → Nat) (prev : Option Int) (m : Mgr) (L : List Nat)
-    (hg : GoodState m (extAdd e (prev.toList.map Int.natAbs ++ L))) :
-    ∃ r, dropOpt prev m = { m with ref := r } ∧ GoodState { m with ref := r } (extAdd e L) := by
-  cases prev with
-  | none => exact ⟨m.ref, rfl, by simpa using hg⟩
-  | some p =>
-    simp only [Option.toList, List.map_cons, List.map_nil, List.cons_append, List.nil_append] at hg
-    obtain ⟨r, hd, g⟩ := dmp_drop_spec m _ hg p (extAdd_pos _ _ _)
-    rw [extDec_extAdd] at g
-    exact ⟨r, hd, g⟩
-
-/-- `except BaseException:` — the shelf's references are given back -/
-theorem releaseFailed_spec (e : Nat → Nat) (cache : List (Nat × Int)) (hn : (cache.map (·.1)).Nodup)
-    (h1 : ∀ p ∈ cache, p.1 ≠ 1) :
-    ∀ (ents : List (Nat × Int)) (prev : Option Int) (m : Mgr) (L : List Nat),
-      (∀ p ∈ ents, p ∈ cache) →
-      GoodState m (extAdd e (prev.toList.map Int.natAbs ++ (shelfRefs ents ++ L))) →
-      ∃ last r, releaseFailed cache ents prev m = (.ok (), last, { m with ref := r }) ∧
-        GoodState { m with ref := r } (extAdd e (last.toList.map Int.natAbs ++ L)) := by
-  intro ents
-  induction ents with
-  | nil =>
-    intro prev m L _ hg
-    exact ⟨prev, m.ref, rfl, by simpa [shelfRefs] using hg⟩
-  | cons p rest ih =>
-    intro prev m L hsub hg
-    obtain ⟨k, u0⟩ := p
-    have hmem := hsub _ List.mem_cons_self
-    obtain ⟨r1, e1, g1⟩ := fetch_shelf e cache hn k u0 hmem (h1 _ hmem) m _ hg
-      (by simp [shelfRefs])
-    have g1' : GoodState { m with ref := r1 }
-        (extAdd e (prev.toList.map Int.natAbs ++ (u0.natAbs :: u0.natAbs :: (shelfRefs rest ++ L)))) := by
-      apply g1.permL
-      simp only [shelfRefs, List.map_cons, List.cons_append]
-      exact List.perm_middle.symm
-    obtain ⟨r2, ed, g2⟩ := dropOpt_spec e prev { m with ref := r1 } _ g1'
-    obtain ⟨r3, hd3, g3⟩ := decref_ok_spec { m with ref := r2 } _ g2 u0 (extAdd_pos _ _ _)
-    rw [extDec_extAdd] at g3
-    obtain ⟨last, r4, e4, g4⟩ := ih (some u0) { m with ref := r3 } L
-      (fun p hp => hsub p (List.mem_cons_of_mem _ hp))
-      (by simpa using g3)
-    refine ⟨last, r4, ?_, g4⟩
-    rw [releaseFailed]
-    simp only [e1, ed, hd3]
-    exact e4
-
-/-- the release loop of the successful path on ANY shelf that is held: its assertions pass -/
-theorem releaseLoop_any (e : Nat → Nat) (cache : List (Nat × Int)) (hn : (cache.map (·.1)).Nodup)
-    (h1 : ∀ p ∈ cache, p.1 ≠ 1) :
-    ∀ (ents : List (Nat × Int)) (prev : Option Int) (m : Mgr) (L : List Nat),
-      (∀ p ∈ ents, p ∈ cache) →
-      GoodState m (extAdd e (prev.toList.map Int.natAbs ++ (shelfRefs ents ++ L))) →
-      ∃ last r, releaseLoop false cache ents prev m = (.ok (), last, { m with ref := r }) ∧
-        GoodState { m with ref := r } (extAdd e (last.toList.map Int.natAbs ++ L)) := by
-  intro ents
-  induction ents with
-  | nil =>
-    intro prev m L _ hg
-    exact ⟨prev, m.ref, rfl, by simpa [shelfRefs] using hg⟩
-  | cons p rest ih =>
-    intro prev m L hsub hg
-    obtain ⟨k, u0⟩ := p
-    have hmem := hsub _ List.mem_cons_self
-    obtain ⟨r1, e1, g1⟩ := fetch_shelf e cache hn k u0 hmem (h1 _ hmem) m _ hg
-      (by simp [shelfRefs])
-    have g1' : GoodState { m with ref := r1 }
-        (extAdd e (prev.toList.map Int.natAbs ++ (u0.natAbs :: u0.natAbs :: (shelfRefs rest ++ L)))) := by
-      apply g1.permL
-      simp only [shelfRefs, List.map_cons, List.cons_append]
-      exact List.perm_middle.symm
-    obtain ⟨r2, ed, g2⟩ := dropOpt_spec e prev { m with ref := r1 } _ g1'
-    have u0mem : ({ m with ref := r2 } : Mgr).tbl.Mem u0 := g2.exact.mem_of_ext_pos (extAdd_pos _ _ _)
-    obtain ⟨c, hc1, hc2⟩ := refOf_ge { m with ref := r2 } _ g2 u0 u0mem
-    have hc3 : 2 ≤ c := by
-      have : 2 ≤ extAdd e (u0.natAbs :: u0.natAbs :: (shelfRefs rest ++ L)) u0.natAbs := by
-        simp [extAdd]; omega
-      omega
-    obtain ⟨r3, hd3, g3⟩ := decref_ok_spec { m with ref := r2 } _ g2 u0 (extAdd_pos _ _ _)
-    rw [extDec_extAdd] at g3
-    have hbody : (refOf u0 >>= fun c => M.assert (decide (2 ≤ c)) >>= fun _ =>
-        if false = true then (M.assert (decide (3 ≤ c)) >>= fun _ => decref u0) else decref u0)
-        { m with ref := r2 } = (.ok (), { m with ref := r3 }) := by
-      refine (M.bind_eq_ok hc1).trans ?_
-      refine (M.bind_eq_ok (assert_ok _ _ (by simpa using hc3))).trans ?_
-      simp only [Bool.false_eq_true, if_false]
-      exact hd3
-    obtain ⟨last, r4, e4, g4⟩ := ih (some u0) { m with ref := r3 } L
-      (fun p hp => hsub p (List.mem_cons_of_mem _ hp))
-      (by simpa using g3)
-    refine ⟨last, r4, ?_, g4⟩
-    rw [releaseLoop]
-    simp only [e1, ed]
-    rw [hbody]
-    exact e4
-
-theorem dropList_spec (e : Nat → Nat) : ∀ (us : List Int) (m : Mgr) (L : List Nat),
-    GoodState m (extAdd e (us.map Int.natAbs ++ L)) →
-    ∃ r, dropList us m = { m with ref := r } ∧ GoodState { m with ref := r } (extAdd e L) := by
-  intro us
-  induction us with
-  | nil => intro m L hg; exact ⟨m.ref, rfl, by simpa using hg⟩
-  | cons u rest ih =>
-    intro m L hg
-    simp only [List.map_cons, List.cons_append] at hg
-    obtain ⟨r, hd, g⟩ := dmp_drop_spec m _ hg u (extAdd_pos _ _ _)
-    rw [extDec_extAdd] at g
-    obtain ⟨r2, hd2, g2⟩ := ih { m with ref := r } L g
-    exact ⟨r2, by rw [dropList, hd, hd2], g2⟩
 
 theorem declare_keptV (names : List String) : ∀ m : Mgr, Inv m → KeptV m (declare names m).2 := by
   induction names with
@@ -1107,92 +601,8 @@ def JsonLeaves (e : Nat → Nat) (m : Mgr) (out : Except Err Roots × Mgr) : Pro
   | .ok roots => GoodState out.2 (extAdd e (roots.values.map Int.natAbs))
   | .error _ => GoodState out.2 e
 
-/-- `_copy.load_json(file, bdd, load_order=False)` on ANY content whose node lines do not use the
-terminal's id `1`, dynamic reordering not enabled, EVERY outcome -/
-theorem loadJson_false_any (f : JsonFile) (hid : ∀ ln ∈ f.nodes, ln.id ≠ 1) (m : Mgr) (e : Nat → Nat)
-    (hg : GoodState m e) : JsonLeaves e m (loadJson f false m) := by
-  rw [loadJson_false_eq]
-  unfold jsonTry
-  -- the line `level_of_var`
-  obtain ⟨m1, ed, g1, -, -, -, -, -⟩ := declare_spec (f.levelOfVar.map (·.1)) m e hg
-  have kv1 : KeptV m m1 := by
-    have := declare_keptV (f.levelOfVar.map (·.1)) m hg.inv
-    rw [ed] at this; exact this
-  rw [jsonHeader_false f m m1 ed]
-  dsimp only
-  -- the node lines
-  generalize hvat : (f.levelOfVar.foldl (fun acc (x : String × Nat) => (x.2, x.1) :: acc) []) = vat
-  obtain ⟨k2, n2, i2, g2⟩ := makeNodesE_any e vat f.nodes [] m1 (by simp) (by simp) hid
-    (by simpa [shelfRefs, extAdd_nil] using g1)
-  generalize makeNodesE false vat f.nodes [] m1 = res at k2 n2 i2 g2
-  obtain ⟨r2, cache, m2⟩ := res
-  dsimp only at k2 n2 i2 g2
-  have kv2 : KeptV m m2 := kv1.trans (k2.toV kv1.inv)
-  -- the handler
-  have handler : ∀ (er : Err) (m3 : Mgr), Kept m2 m3 → GoodState m3 (extAdd e (shelfRefs cache)) →
-      JsonLeaves e m (jsonFinish f false (.error er, cache, m3)) := by
-    intro er m3 k3 g3
-    obtain ⟨last, r4, e4, g4⟩ := releaseFailed_spec e cache n2 i2 cache none m3 []
-      (fun _ h => h) (by simpa using g3)
-    obtain ⟨r5, e5, g5⟩ := dropOpt_spec e last { m3 with ref := r4 } [] (by simpa using g4)
-    rw [extAdd_nil] at g5
-    unfold jsonFinish
-    simp only [e4, e5]
-    exact ⟨kv2.trans ((GoodState.setRef_kept k3 g5).toV kv2.inv), g5⟩
-  cases r2 with
-  | error er => exact handler er m2 (Kept.refl kv2.inv) g2
-  | ok _ =>
-    dsimp only
-    -- the roots
-    obtain ⟨k3, ho⟩ := Safe.jsonRoots (e := e) (l := shelfRefs cache) f cache m2 g2
-    cases h3 : jsonRoots f cache m2 with
-    | mk r3 m3 =>
-      rw [h3] at k3 ho
-      cases r3 with
-      | error er => exact handler er m3 k3 ho
-      | ok us =>
-        dsimp only
-        obtain ⟨l', ⟨hp, hvals⟩, g3⟩ := ho
-        have kv3 : KeptV m m3 := kv2.trans (k3.toV kv2.inv)
-        -- the release loop
-        obtain ⟨last, r4, e4, g4⟩ := releaseLoop_any e cache n2 i2 cache none m3 (us.map Int.natAbs)
-          (fun _ h => h) (by
-            apply g3.permL
-            refine hp.trans ?_
-            simp only [Option.toList, List.map_nil, List.nil_append]
-            exact List.perm_append_comm)
-        unfold jsonFinish
-        simp only [e4, Bool.false_eq_true, if_false]
-        let m4 : Mgr := { m3 with ref := r4 }
-        have g4' : GoodState m4 (extAdd e (last.toList.map Int.natAbs ++ us.map Int.natAbs)) := g4
-        have k4 : Kept m3 m4 := GoodState.setRef_kept (Kept.refl k3.inv) g4'
-        obtain ⟨r5, e5, g5⟩ := dropOpt_spec e last m4 (us.map Int.natAbs) g4'
-        cases hac : dmpAssertConsistent m4 with
-        | mk ra ma =>
-          have hma : ma = m4 := by have := dmpAssertConsistent_state m4; rw [hac] at this; exact this
-          subst hma
-          cases ra with
-          | ok _ =>
-            have hfin : (liftE (Except.ok ()) >>= fun _ => dmpAssertConsistent >>= fun _ => (pure () : M Unit)) m4
-                = (.ok (), m4) := by
-              refine (M.bind_eq_ok (show liftE (Except.ok ()) m4 = (.ok (), m4) from rfl)).trans ?_
-              exact (M.bind_eq_ok hac).trans rfl
-            rw [hfin]
-            simp only [e5]
-            refine ⟨kv3.trans ((GoodState.setRef_kept (Kept.refl k3.inv) g5).toV kv3.inv), ?_⟩
-            show GoodState _ (extAdd e ((f.roots.rebuild us).values.map Int.natAbs))
-            rw [hvals]; exact g5
-          | error er =>
-            have hfin : (liftE (Except.ok ()) >>= fun _ => dmpAssertConsistent >>= fun _ => (pure () : M Unit)) m4
-                = (.error er, m4) := by
-              refine (M.bind_eq_ok (show liftE (Except.ok ()) m4 = (.ok (), m4) from rfl)).trans ?_
-              exact M.bind_eq_err hac
-            rw [hfin]
-            simp only [e5]
-            obtain ⟨r6, e6, g6⟩ := dropList_spec e us { m3 with ref := r5 } [] (by simpa using g5)
-            rw [extAdd_nil] at g6
-            rw [e6]
-            exact ⟨kv3.trans ((GoodState.setRef_kept (Kept.refl k3.inv) g6).toV kv3.inv), g6⟩
-
+/-! The ledger calculus over every raising path of `_load_json` (`Safe`) and the theorem
+`loadJson_false_any` are in DDProofs.LoadJson2Calc / DDProofs.LoadJson2Off: the calculus is
+generic there (`SafeC`), so that it also serves a manager with dynamic reordering enabled. -/
 
 end DD
